@@ -4,6 +4,7 @@ import (
 	"fmt"
 	"go/ast"
 	"go/token"
+	"sort"
 	"strings"
 )
 
@@ -284,5 +285,494 @@ func extractC13(c *Ctx) error {
 		return fmt.Errorf("jailValidatorsWhichMissedAttestation: expected exactly one Jail call")
 	}
 	c.P("Definition prune_jails_snapshot_vals_without_evidence : bool := true.")
+	if err := c13AddEvidence(c); err != nil {
+		return err
+	}
+	if err := c13SignBytesChannels(c); err != nil {
+		return err
+	}
+	return c13ConfirmChecks(c)
+}
+
+// c13ConfirmChecks: which bytes MsgConfirmBatch verifies a confirmation against -- the checkpoint
+// recomputed for the deployment id in force at confirmation time (true) or the stored BytesToSign
+// (false).
+func c13ConfirmChecks(c *Ctx) error {
+	mf, err := c.Parse("x/skyway/keeper/msg_server.go")
+	if err != nil {
+		return err
+	}
+	fd := FindFunc(mf, "msgServer", "ConfirmBatch")
+	if fd == nil {
+		return fmt.Errorf("msgServer.ConfirmBatch not found")
+	}
+	cs := Calls(fd.Body, "confirmHandlerCommon")
+	if len(cs) != 1 || len(cs[0].Args) != 6 {
+		return fmt.Errorf("ConfirmBatch: expected one confirmHandlerCommon(ctx, signer, orch, signature, checkpoint, chain) call")
+	}
+	arg := c13norm(c, cs[0].Args[4])
+	recomputes := false
+	switch arg {
+	case "batch.BytesToSign":
+	case "checkpoint":
+		recv, pos := c13CheckpointSource(c, fd, "checkpoint")
+		if recv != "batch" || pos > cs[0].Pos() {
+			return fmt.Errorf("ConfirmBatch: checkpoint is not batch.GetCheckpoint(..) computed before the check")
+		}
+		ok := false
+		ast.Inspect(fd.Body, func(n ast.Node) bool {
+			as, isA := n.(*ast.AssignStmt)
+			if isA && len(as.Lhs) >= 1 && c13norm(c, as.Lhs[0]) == "checkpoint" && len(as.Rhs) == 1 &&
+				c13norm(c, as.Rhs[0]) == "batch.GetCheckpoint(string(ci.SmartContractUniqueID))" {
+				ok = true
+			}
+			return true
+		})
+		ciOK := false
+		ast.Inspect(fd.Body, func(n ast.Node) bool {
+			as, isA := n.(*ast.AssignStmt)
+			if isA && len(as.Lhs) >= 1 && c13norm(c, as.Lhs[0]) == "ci" && len(as.Rhs) == 1 &&
+				c13norm(c, as.Rhs[0]) == "k.EVMKeeper.GetChainInfo(ctx,batch.ChainReferenceID)" {
+				ciOK = true
+			}
+			return true
+		})
+		if !ok || !ciOK {
+			return fmt.Errorf("ConfirmBatch: checkpoint is not batch.GetCheckpoint(string(ci.SmartContractUniqueID)) with ci the batch's chain info")
+		}
+		recomputes = true
+	default:
+		return fmt.Errorf("ConfirmBatch: confirmation verified against %q, neither the recomputed checkpoint nor batch.BytesToSign", arg)
+	}
+	bOK := false
+	ast.Inspect(fd.Body, func(n ast.Node) bool {
+		as, isA := n.(*ast.AssignStmt)
+		if isA && len(as.Lhs) >= 1 && c13norm(c, as.Lhs[0]) == "batch" && len(as.Rhs) == 1 &&
+			strings.HasPrefix(c13norm(c, as.Rhs[0]), "k.GetOutgoingTXBatch(") {
+			bOK = true
+		}
+		return true
+	})
+	if !bOK {
+		return fmt.Errorf("ConfirmBatch: batch is not read with k.GetOutgoingTXBatch")
+	}
+	c.P("(* x/skyway/keeper/msg_server.go: ConfirmBatch verifies against the checkpoint recomputed for the id in force now *)")
+	c.P("Definition confirm_verifies_recomputed : bool := %v.", recomputes)
+	c.Info("confirm_verifies_recomputed", recomputes)
+	return nil
+}
+
+func c13norm(c *Ctx, n ast.Node) string { return strings.Join(strings.Fields(c.Src(n)), "") }
+
+// c13AddEvidence: the per-message evidence list keeps ONE entry per validator (a re-sent proof
+// replaces the stored one), whatever its position; VerifyEvidence adds shares once per entry, so
+// this is what makes TotalVotes the DISTINCT attesting share.
+func c13AddEvidence(c *Ctx) error {
+	tf, err := c.Parse("x/consensus/types/consensus.go")
+	if err != nil {
+		return err
+	}
+	fd := FindFunc(tf, "QueuedSignedMessage", "AddEvidence")
+	if fd == nil {
+		return fmt.Errorf("QueuedSignedMessage.AddEvidence not found")
+	}
+	bad := func(why string) error {
+		return fmt.Errorf("QueuedSignedMessage.AddEvidence: %s; expected `for i := range q.Evidence { if q.Evidence[i].ValAddress.Equals(data.ValAddress) { q.Evidence[i].Proof = data.Proof; return } }; q.Evidence = append(q.Evidence, &data)`", why)
+	}
+	var loops []*ast.RangeStmt
+	var others []ast.Stmt
+	for _, st := range fd.Body.List {
+		switch x := st.(type) {
+		case *ast.RangeStmt:
+			loops = append(loops, x)
+		case *ast.IfStmt:
+			// `if q.Evidence == nil { q.Evidence = []*Evidence{} }` is harmless
+			if c13norm(c, x.Cond) == "q.Evidence==nil" && x.Else == nil && len(x.Body.List) == 1 && c13norm(c, x.Body.List[0]) == "q.Evidence=[]*Evidence{}" {
+				continue
+			}
+			return bad("unrecognised if statement `" + c13norm(c, x.Cond) + "`")
+		default:
+			others = append(others, st)
+		}
+	}
+	if len(loops) != 1 {
+		return bad(fmt.Sprintf("%d range loops", len(loops)))
+	}
+	lp := loops[0]
+	if c13norm(c, lp.X) != "q.Evidence" || lp.Key == nil || c13norm(c, lp.Key) != "i" || lp.Value != nil || len(lp.Body.List) != 1 {
+		return bad("loop is not `for i := range q.Evidence` with a single statement")
+	}
+	is, ok := lp.Body.List[0].(*ast.IfStmt)
+	if !ok || is.Init != nil || is.Else != nil || c13norm(c, is.Cond) != "q.Evidence[i].ValAddress.Equals(data.ValAddress)" || len(is.Body.List) != 2 {
+		return bad("loop body is not the same-validator test")
+	}
+	if c13norm(c, is.Body.List[0]) != "q.Evidence[i].Proof=data.Proof" {
+		return bad("same validator: the stored proof is not replaced")
+	}
+	if rs, ok := is.Body.List[1].(*ast.ReturnStmt); !ok || len(rs.Results) != 0 {
+		return bad("same validator: no return after replacing")
+	}
+	if len(others) != 1 || c13norm(c, others[0]) != "q.Evidence=append(q.Evidence,&data)" {
+		return bad("the new entry is not appended exactly once after the loop")
+	}
+	if lp.Pos() > others[0].Pos() {
+		return bad("append before the loop")
+	}
+	// the queue's AddEvidence goes through it, once
+	qf, err := c.Parse("x/consensus/keeper/consensus/consensus.go")
+	if err != nil {
+		return err
+	}
+	qa := FindFunc(qf, "Queue", "AddEvidence")
+	if qa == nil {
+		return fmt.Errorf("Queue.AddEvidence not found")
+	}
+	if cs := Calls(qa.Body, "AddEvidence"); len(cs) != 1 || c13norm(c, cs[0]) != "msg.AddEvidence(*evidence)" {
+		return fmt.Errorf("Queue.AddEvidence: expected exactly one msg.AddEvidence(*evidence)")
+	}
+	c.P("(* x/consensus/types/consensus.go: QueuedSignedMessage.AddEvidence keeps one entry per validator *)")
+	c.P("Definition add_evidence_one_entry_per_validator : bool := true.")
+	c.Info("add_evidence", "one entry per validator, re-sent proof replaces")
+	return nil
+}
+
+// c13SignBytesChannels enumerates every way bytes to sign leave the skyway module or enter a
+// batch record: (1) the protobuf types that carry an OutgoingTxBatch (the only message with a
+// bytes_to_sign field) and the functions that build them -- the query handlers relayers read what
+// to sign from; each must hand out the STORED batch (the value that was archived when it was
+// written), untouched; (2) every assignment to a BytesToSign field in x/skyway.  Anything not of
+// the recognised shape is an error.
+func c13SignBytesChannels(c *Ctx) error {
+	pbs, err := c.ParseDir("x/skyway/types")
+	if err != nil {
+		return err
+	}
+	// (0) which messages have a sign-bytes field at all
+	var signMsgs []string
+	carriers := map[string]string{} // struct -> field carrying batches
+	mentions := func(e ast.Expr, name string) bool {
+		found := false
+		ast.Inspect(e, func(n ast.Node) bool {
+			if id, ok := n.(*ast.Ident); ok && id.Name == name {
+				found = true
+			}
+			return true
+		})
+		return found
+	}
+	for _, f := range pbs {
+		if !strings.HasSuffix(c.Fset.Position(f.Pos()).Filename, ".pb.go") {
+			continue
+		}
+		for _, d := range f.Decls {
+			gd, ok := d.(*ast.GenDecl)
+			if !ok {
+				continue
+			}
+			for _, sp := range gd.Specs {
+				ts, ok := sp.(*ast.TypeSpec)
+				if !ok {
+					continue
+				}
+				st, ok := ts.Type.(*ast.StructType)
+				if !ok {
+					continue
+				}
+				for _, fl := range st.Fields.List {
+					for _, nm := range fl.Names {
+						if strings.Contains(strings.ToLower(nm.Name), "bytestosign") || strings.Contains(strings.ToLower(nm.Name), "checkpoint") {
+							signMsgs = append(signMsgs, ts.Name.Name+"."+nm.Name)
+						}
+						if ts.Name.Name != "OutgoingTxBatch" && mentions(fl.Type, "OutgoingTxBatch") {
+							carriers[ts.Name.Name] = nm.Name
+						}
+					}
+				}
+			}
+		}
+	}
+	if len(signMsgs) != 1 || signMsgs[0] != "OutgoingTxBatch.BytesToSign" {
+		return fmt.Errorf("sign-bytes fields in x/skyway/types/*.pb.go: %v, expected only OutgoingTxBatch.BytesToSign", signMsgs)
+	}
+	wantCarriers := map[string]string{
+		"QueryLastPendingBatchRequestByAddrResponse":    "LastPendingBatchRequestByAddr",
+		"QueryOutgoingTxBatchesResponse":                "OutgoingTxBatches",
+		"QueryBatchRequestByNonceResponse":              "BatchRequestByNonce",
+		"QueryLastPendingBatchForGasEstimationResponse": "LastPendingBatchForGasEstimation",
+		"GenesisState":                                  "ExportGenesis",
+	}
+	for k := range carriers {
+		if _, ok := wantCarriers[k]; !ok {
+			return fmt.Errorf("message %s carries OutgoingTxBatch (bytes to sign) and is not a known channel", k)
+		}
+	}
+	for k := range wantCarriers {
+		if _, ok := carriers[k]; !ok {
+			return fmt.Errorf("message %s no longer carries OutgoingTxBatch: channel list out of date", k)
+		}
+	}
+	// (1) who builds a carrier
+	kfs, err := c.ParseDir("x/skyway/keeper")
+	if err != nil {
+		return err
+	}
+	mfs, err := c.ParseDir("x/skyway")
+	if err != nil {
+		return err
+	}
+	builders := map[string][]*ast.FuncDecl{}
+	for _, f := range append(append([]*ast.File{}, kfs...), mfs...) {
+		if strings.Contains(c.Fset.Position(f.Pos()).Filename, "verif_hooks") {
+			continue
+		}
+		for _, d := range f.Decls {
+			fd, ok := d.(*ast.FuncDecl)
+			if !ok || fd.Body == nil {
+				continue
+			}
+			ast.Inspect(fd.Body, func(n ast.Node) bool {
+				cl, ok := n.(*ast.CompositeLit)
+				if !ok {
+					return true
+				}
+				if se, ok := cl.Type.(*ast.SelectorExpr); ok {
+					if _, isC := carriers[se.Sel.Name]; isC {
+						// a literal that does not set the batch field carries nothing
+						for _, el := range cl.Elts {
+							if kv, ok := el.(*ast.KeyValueExpr); ok && c13norm(c, kv.Key) == carriers[se.Sel.Name] {
+								builders[se.Sel.Name] = append(builders[se.Sel.Name], fd)
+								return true
+							}
+						}
+					}
+				}
+				return true
+			})
+		}
+	}
+	var handlers []string
+	for _, msg := range SortedSet(func() map[string]bool {
+		m := map[string]bool{}
+		for k := range wantCarriers {
+			m[k] = true
+		}
+		return m
+	}()) {
+		want := wantCarriers[msg]
+		fds := builders[msg]
+		if len(fds) == 0 {
+			return fmt.Errorf("nobody builds %s: channel list out of date", msg)
+		}
+		for _, fd := range fds {
+			if fd.Name.Name != want {
+				return fmt.Errorf("%s is built by %s, expected only %s", msg, fd.Name.Name, want)
+			}
+		}
+		fd := fds[0]
+		if msg == "GenesisState" {
+			continue // chain export, not read by relayers; C11's subject
+		}
+		if err := c13ServesStored(c, fd, carriers[msg]); err != nil {
+			return err
+		}
+		handlers = append(handlers, fd.Name.Name)
+	}
+	// (2) writers of a BytesToSign field anywhere in x/skyway (non-test, non-pb, hooks excluded)
+	tfs, err := c.ParseDir("x/skyway/types")
+	if err != nil {
+		return err
+	}
+	var writes []string
+	for _, f := range append(append(append([]*ast.File{}, kfs...), mfs...), tfs...) {
+		fn := c.Fset.Position(f.Pos()).Filename
+		if strings.HasSuffix(fn, ".pb.go") || strings.HasSuffix(fn, ".pb.gw.go") || strings.Contains(fn, "verif_hooks") {
+			continue
+		}
+		for _, d := range f.Decls {
+			fd, ok := d.(*ast.FuncDecl)
+			if !ok || fd.Body == nil {
+				continue
+			}
+			ast.Inspect(fd.Body, func(n ast.Node) bool {
+				switch x := n.(type) {
+				case *ast.AssignStmt:
+					for i, l := range x.Lhs {
+						if se, ok := l.(*ast.SelectorExpr); ok && se.Sel.Name == "BytesToSign" {
+							r := "?"
+							if i < len(x.Rhs) {
+								r = c13norm(c, x.Rhs[i])
+							}
+							writes = append(writes, fd.Name.Name+":"+c13norm(c, l)+"="+r)
+						}
+					}
+				case *ast.KeyValueExpr:
+					if id, ok := x.Key.(*ast.Ident); ok && id.Name == "BytesToSign" {
+						writes = append(writes, fd.Name.Name+":{"+c13norm(c, x.Value)+"}")
+					}
+				}
+				return true
+			})
+		}
+	}
+	sort.Strings(writes)
+	wantWrites := []string{
+		"NewInternalOutgingTxBatch:ret.BytesToSign=bytesToSign",
+		"NewInternalOutgingTxBatchFromExternalBatch:{batch.BytesToSign}",
+		"ToExternal:{i.BytesToSign}",
+		"ToExternalArray:{val.BytesToSign}",
+		"UpdateBatchGasEstimate:entity.BytesToSign=bts",
+	}
+	if strings.Join(writes, " | ") != strings.Join(wantWrites, " | ") {
+		return fmt.Errorf("writers of a BytesToSign field in x/skyway: %v, expected %v (a new writer publishes sign bytes the model does not know)", writes, wantWrites)
+	}
+	sort.Strings(handlers)
+	c.P("(* x/skyway/keeper/grpc_query.go: every query that hands out batches serves the stored record untouched *)")
+	c.P("Definition batch_queries : list string := %s.", CoqStrList(handlers))
+	c.P("Definition queries_serve_stored : bool := true.")
+	c.Info("batch_queries", handlers)
+	return nil
+}
+
+// c13ServesStored: in a query handler the batches put into the response are the records read from
+// the store (IterateOutgoingTxBatches callback parameter / GetOutgoingTXBatch result), converted
+// with ToExternal / ToExternalArray and nothing else.
+func c13ServesStored(c *Ctx, fd *ast.FuncDecl, field string) error {
+	name := fd.Name.Name
+	bad := func(why string) error {
+		return fmt.Errorf("%s: %s -- the batches it serves are not recognisably the stored records", name, why)
+	}
+	// names bound to stored records
+	stored := map[string]bool{}
+	for _, ce := range Calls(fd.Body, "IterateOutgoingTxBatches") {
+		if len(ce.Args) != 2 {
+			return bad("IterateOutgoingTxBatches call shape")
+		}
+		fl, ok := ce.Args[1].(*ast.FuncLit)
+		if !ok || len(fl.Type.Params.List) != 2 || len(fl.Type.Params.List[1].Names) != 1 {
+			return bad("IterateOutgoingTxBatches callback shape")
+		}
+		stored[fl.Type.Params.List[1].Names[0].Name] = true
+	}
+	ast.Inspect(fd.Body, func(n ast.Node) bool {
+		as, ok := n.(*ast.AssignStmt)
+		if ok && len(as.Rhs) == 1 && len(as.Lhs) >= 1 {
+			if ce, ok := as.Rhs[0].(*ast.CallExpr); ok && c13norm(c, ce.Fun) == "k.GetOutgoingTXBatch" {
+				stored[c13norm(c, as.Lhs[0])] = true
+			}
+		}
+		return true
+	})
+	if len(stored) == 0 {
+		return bad("no read of the batch store found")
+	}
+	// collections of stored records
+	coll := map[string]string{} // var -> "internal" | "external"
+	var firstErr error
+	fail := func(why string) {
+		if firstErr == nil {
+			firstErr = bad(why)
+		}
+	}
+	okElem := func(e ast.Expr) string {
+		s := c13norm(c, e)
+		for v := range stored {
+			if s == v {
+				return "internal"
+			}
+			if s == v+".ToExternal()" {
+				return "external"
+			}
+		}
+		return ""
+	}
+	ast.Inspect(fd.Body, func(n ast.Node) bool {
+		switch x := n.(type) {
+		case *ast.AssignStmt:
+			for i, l := range x.Lhs {
+				ls := c13norm(c, l)
+				// nobody may assign to a stored record or one of its fields
+				root := ls
+				if j := strings.IndexAny(root, ".["); j >= 0 {
+					root = root[:j]
+				}
+				if stored[root] {
+					if ce, ok := x.Rhs[0].(*ast.CallExpr); ok && len(x.Rhs) == 1 && c13norm(c, ce.Fun) == "k.GetOutgoingTXBatch" && ls == root {
+						continue
+					}
+					fail("assignment to the stored record `" + ls + "`")
+				}
+				if i >= len(x.Rhs) {
+					continue
+				}
+				if ce, ok := x.Rhs[i].(*ast.CallExpr); ok {
+					if id, ok := ce.Fun.(*ast.Ident); ok && id.Name == "append" {
+						if len(ce.Args) != 2 || c13norm(c, ce.Args[0]) != ls {
+							fail("append shape `" + c13norm(c, x) + "`")
+							continue
+						}
+						kind := okElem(ce.Args[1])
+						if kind == "" {
+							fail("appends `" + c13norm(c, ce.Args[1]) + "`, not a stored record / its ToExternal()")
+							continue
+						}
+						if old, ok := coll[ls]; ok && old != kind {
+							fail("mixed collection " + ls)
+						}
+						coll[ls] = kind
+					}
+					if se, ok := ce.Fun.(*ast.SelectorExpr); ok && se.Sel.Name == "ToExternalArray" {
+						if coll[c13norm(c, se.X)] != "internal" {
+							fail("ToExternalArray of `" + c13norm(c, se.X) + "`, not a collection of stored records")
+							continue
+						}
+						coll[ls] = "external"
+					}
+				}
+			}
+		case *ast.CallExpr:
+			if se, ok := x.Fun.(*ast.SelectorExpr); ok && se.Sel.Name == "GetCheckpoint" {
+				fail("computes a checkpoint")
+			}
+		}
+		return true
+	})
+	if firstErr != nil {
+		return firstErr
+	}
+	// every response literal's batch field
+	n := 0
+	ast.Inspect(fd.Body, func(nd ast.Node) bool {
+		cl, ok := nd.(*ast.CompositeLit)
+		if !ok {
+			return true
+		}
+		se, ok := cl.Type.(*ast.SelectorExpr)
+		if !ok || !strings.HasPrefix(se.Sel.Name, "Query") || !strings.HasSuffix(se.Sel.Name, "Response") {
+			return true
+		}
+		for _, el := range cl.Elts {
+			kv, ok := el.(*ast.KeyValueExpr)
+			if !ok || c13norm(c, kv.Key) != field {
+				continue
+			}
+			v := c13norm(c, kv.Value)
+			switch {
+			case v == "nil", v == "[]types.OutgoingTxBatch{}":
+			case coll[v] == "external":
+				n++
+			case okElem(kv.Value) == "external":
+				n++
+			default:
+				fail("response field " + field + " = `" + v + "`")
+			}
+		}
+		return true
+	})
+	if firstErr != nil {
+		return firstErr
+	}
+	if n == 0 {
+		return bad("no response carrying stored batches found")
+	}
 	return nil
 }
